@@ -24,8 +24,8 @@ ASSUMPTIONS = [
     "semantic equality is only demanded of strings that evaluate to a type; arithmetic containing '|' is only checked for termination",
 ]
 PLAN = {"quick": dict(cases=40000), "thorough": dict(cases=1500000)}
-FLOORS = {"quick": {"semantic_checked": 25000, "fixpoint_checked": 35000, "ast_identity_checked": 3000, "with_pipe": 11000},
-          "thorough": {"semantic_checked": 900000, "fixpoint_checked": 1300000, "ast_identity_checked": 100000, "with_pipe": 350000}}
+FLOORS = {"quick": {"semantic_checked": 25000, "fixpoint_checked": 35000, "ast_identity_checked": 3000, "with_pipe": 11000, "custom_union_checked": 3000},
+          "thorough": {"semantic_checked": 900000, "fixpoint_checked": 1300000, "ast_identity_checked": 100000, "with_pipe": 350000, "custom_union_checked": 100000}}
 
 
 class Foo:
@@ -226,12 +226,19 @@ def check(sh, s, semantic=True):
         same = a == b
     if not same:
         sh.violation("meaning-changed", input=s, output=out, expected=str(norm(a))[:300], got=str(norm(b))[:300])
-    # custom union name
-    if pipe and hash(s) % 7 == 0:
+    # custom union name: the requested name is the one used, whatever was asked for the same text before, and asking for the
+    # default again afterwards gives the default output again
+    if pipe and hash(s) % 3 == 0:
         try:
-            out3 = future.transform(s, union="Union")
-            if norm(eval(out3, dict(NS))) != norm(a):  # noqa: S307
+            out3 = future.transform(s, union="Uni0n")
+            sh.count("custom_union_checked")
+            if norm(eval(out3, {**NS, "Uni0n": typing.Union})) != norm(a):  # noqa: S307
                 sh.violation("meaning-changed-custom-union", input=s, output=out3)
+            if "typing.Union" not in s and out3 != out.replace("typing.Union[", "Uni0n["):
+                sh.violation("custom-union-name-not-used", input=s, output=out3, default_output=out)
+            out4 = future.transform(s)
+            if out4 != out:
+                sh.violation("default-output-changed-after-custom-union", input=s, first=out, later=out4)
         except Exception as e:  # noqa: BLE001
             sh.violation("raised-custom-union", input=s, exc=type(e).__name__)
 
